@@ -160,46 +160,7 @@ func propC09(c *Ctx) {
 
 	// D3 destination address admission
 	d3 := c.Rule("D3", "K1/K5 site table", "network endpoint only for an address of this NIC (or promiscuous/subnet)", 6)
-	if fn := c.Fn(d3, "(*stack.NIC).DeliverNetworkPacket"); fn != nil {
-		m := map[string]string{
-			"NP":    "$0.stack.networkProtocols[$4]#0",
-			"VV":    "$5", // the vv parameter before any mutation
-			"FIRST": "buffer.VectorisedView.First({VV})",
-			"ADDRS": "iface:stack.NetworkProtocol.ParseAddresses({NP}, {FIRST})",
-			"REF":   "(*stack.NIC).getRef($0, $4, {ADDRS}#1)",
-			"SIZE":  "!(builtin:len({FIRST}) < iface:stack.NetworkProtocol.MinimumPacketSize({NP}))",
-		}
-		c.CheckSites(d3, fn, []SiteSpec{
-			{Kind: "call", Target: "iface:stack.NetworkProtocol.ParseAddresses", Args: sub(m, "{NP}", "{FIRST}"), Guards: sub(m, "{SIZE}"), N: 1, Why: "addresses parsed only after the minimum-size check"},
-			{Kind: "call", Target: "(*stack.NIC).getRef", Args: sub(m, "$0", "$4", "{ADDRS}#1"), N: 1, Why: "lookup by the packet's DESTINATION address"},
-			{Kind: "call", Target: "iface:stack.NetworkEndpoint.HandlePacket", Args: sub(m, "{REF}.ep", "*", "{VV}"), Guards: sub(m, "!({REF} == nil)"), N: 1, Why: "local delivery only to the endpoint that owns the destination address"},
-			{Kind: "call", Target: "iface:stack.NetworkEndpoint.HandlePacket", Args: sub(m, "*", "*", "{VV}"), Guards: sub(m, "({REF} == nil)", "(*stack.Stack).Forwarding($0.stack)"), N: 1, Why: "otherwise only the forwarding path, and only when forwarding is enabled"},
-		})
-	}
-	if fn := c.Fn(d3, "(*stack.NIC).getRef"); fn != nil {
-		m := map[string]string{"HIT": "$0.endpoints[stack.NetworkEndpointID{LocalAddress: $2}]"}
-		c.CheckSites(d3, fn, []SiteSpec{
-			{Kind: "call", Target: "(*stack.NIC).addAddressLocked", Args: []string{"$0", "$1", "$2", "0", "true"}, Guards: []string{"phi{$0.promiscuous | true}"}, N: 1, Why: "temporary endpoint only when promiscuous or a subnet of the NIC contains the address"},
-			{Kind: "call", Target: "(*tcpip.Subnet).Contains", Args: []string{"*", "$2"}, Guards: []string{"!$0.promiscuous"}, N: 1, Why: "subnet test on the destination address"},
-		})
-		// every non-nil return is a table hit or the temporary endpoint
-		for _, s := range Sites(fn) {
-			if s.Kind != "return" || len(s.Args) != 1 || s.Args[0] == "nil" {
-				continue
-			}
-			ok := s.Args[0] == sub(m, "{HIT}#0")[0] || s.Args[0] == "(*stack.NIC).addAddressLocked($0, $1, $2, 0, true)#0"
-			c.Check(ok, d3, FuncName(fn)+"/return:"+s.Args[0], c.pos(s.Instr), "returns a table hit or the temporary endpoint", "returns an endpoint that is neither a hit for the destination address nor the temporary endpoint")
-			if s.Args[0] == sub(m, "{HIT}#0")[0] {
-				has := false
-				for _, g := range s.Guards {
-					if g == sub(m, "{HIT}#1")[0] {
-						has = true
-					}
-				}
-				c.Check(has, d3, FuncName(fn)+"/hit-needs-ok", c.pos(s.Instr), "hit returned only when the lookup succeeded", "table value returned without the ok test")
-			}
-		}
-	}
+	ownAddressDeliveryRule(c, d3)
 
 	// D5 mask matching
 	maskedMatchRule(c, "D5")
@@ -409,5 +370,53 @@ func udpReconnectRule(c *Ctx, rule string) {
 			{Kind: "call", Target: "(*stack.Stack).UnregisterTransportEndpoint", Args: []string{"$0.stack", "$0.regNICID", "$0.effectiveNetProtos", "17", "$0.id"}, N: 1, Why: "the OLD registration is removed under the scope and id recorded when it was made (before any of them is overwritten): otherwise the bound registration survives for some network protocol and a connected socket keeps receiving from strangers"},
 		})
 		c.Ordered(rule, fn, []string{"register new", "unregister old", "record new scope"}, []func(Site) bool{isCall("(*udp.endpoint).registerWithStack"), isCall("(*stack.Stack).UnregisterTransportEndpoint"), isStore("udp.endpoint.regNICID")})
+	}
+}
+
+// ownAddressDeliveryRule: a packet reaches a network endpoint (and through it
+// ICMP and the transports) only when getRef found its destination address on
+// this NIC; getRef returns a table hit or the one temporary endpoint it
+// creates under promiscuous mode / an owning subnet. Shared by C09 (D3) and
+// C13 (no reply to a request addressed to someone else).
+func ownAddressDeliveryRule(c *Ctx, rule string) {
+	if fn := c.Fn(rule, "(*stack.NIC).DeliverNetworkPacket"); fn != nil {
+		m := map[string]string{
+			"NP":    "$0.stack.networkProtocols[$4]#0",
+			"VV":    "$5", // the vv parameter before any mutation
+			"FIRST": "buffer.VectorisedView.First({VV})",
+			"ADDRS": "iface:stack.NetworkProtocol.ParseAddresses({NP}, {FIRST})",
+			"REF":   "(*stack.NIC).getRef($0, $4, {ADDRS}#1)",
+			"SIZE":  "!(builtin:len({FIRST}) < iface:stack.NetworkProtocol.MinimumPacketSize({NP}))",
+		}
+		c.CheckSites(rule, fn, []SiteSpec{
+			{Kind: "call", Target: "iface:stack.NetworkProtocol.ParseAddresses", Args: sub(m, "{NP}", "{FIRST}"), Guards: sub(m, "{SIZE}"), N: 1, Why: "addresses parsed only after the minimum-size check"},
+			{Kind: "call", Target: "(*stack.NIC).getRef", Args: sub(m, "$0", "$4", "{ADDRS}#1"), N: 1, Why: "lookup by the packet's DESTINATION address"},
+			{Kind: "call", Target: "iface:stack.NetworkEndpoint.HandlePacket", Args: sub(m, "{REF}.ep", "*", "{VV}"), Guards: sub(m, "!({REF} == nil)"), N: 1, Why: "local delivery only to the endpoint that owns the destination address"},
+			{Kind: "call", Target: "iface:stack.NetworkEndpoint.HandlePacket", Args: sub(m, "*", "*", "{VV}"), Guards: sub(m, "({REF} == nil)", "(*stack.Stack).Forwarding($0.stack)"), N: 1, Why: "otherwise only the forwarding path, and only when forwarding is enabled"},
+		})
+	}
+	if fn := c.Fn(rule, "(*stack.NIC).getRef"); fn != nil {
+		m := map[string]string{"HIT": "$0.endpoints[stack.NetworkEndpointID{LocalAddress: $2}]"}
+		c.CheckSites(rule, fn, []SiteSpec{
+			{Kind: "call", Target: "(*stack.NIC).addAddressLocked", Args: []string{"$0", "$1", "$2", "0", "true"}, Guards: []string{"phi{$0.promiscuous | true}"}, N: 1, Why: "temporary endpoint only when promiscuous or a subnet of the NIC contains the address"},
+			{Kind: "call", Target: "(*tcpip.Subnet).Contains", Args: []string{"*", "$2"}, Guards: []string{"!$0.promiscuous"}, N: 1, Why: "subnet test on the destination address"},
+		})
+		// every non-nil return is a table hit or the temporary endpoint
+		for _, s := range Sites(fn) {
+			if s.Kind != "return" || len(s.Args) != 1 || s.Args[0] == "nil" {
+				continue
+			}
+			ok := s.Args[0] == sub(m, "{HIT}#0")[0] || s.Args[0] == "(*stack.NIC).addAddressLocked($0, $1, $2, 0, true)#0"
+			c.Check(ok, rule, FuncName(fn)+"/return:"+s.Args[0], c.pos(s.Instr), "returns a table hit or the temporary endpoint", "returns an endpoint that is neither a hit for the destination address nor the temporary endpoint")
+			if s.Args[0] == sub(m, "{HIT}#0")[0] {
+				has := false
+				for _, g := range s.Guards {
+					if g == sub(m, "{HIT}#1")[0] {
+						has = true
+					}
+				}
+				c.Check(has, rule, FuncName(fn)+"/hit-needs-ok", c.pos(s.Instr), "hit returned only when the lookup succeeded", "table value returned without the ok test")
+			}
+		}
 	}
 }
